@@ -24,6 +24,8 @@ import o1_common as oc
 PROP = "C04"
 RULE = ("random objective (35% plateau/step or constant => many equal values), box, N=1..5, parameters; driven either by "
         "Solve alone or by DoGlobalIteration batches (mostly size 1) followed by Solve, 20% with refineSolution=True; "
+        "40% of the batch-driven runs have NO listener attached and keep the Solution object returned by an early GetResults, which "
+        "is examined after each further batch before fresh results are requested; "
         "the claim is tested at every observation moment (callbacks, after each call, returned Solution). Distinct by "
         "parameter set + call pattern; non-trivial if >= 3 trials and the best trial changed at least once or two "
         "trials share the minimal value.")
@@ -89,14 +91,21 @@ def check_case(case):
     moments = [0]
     box = [None]
     lst = make_listener(box, moments, vs, case)
-    run = oc.Run(case, listeners=[lst])
+    bare = bool(case.get("bare"))          # no listener attached: nothing calls GetResults behind the caller's back
+    run = oc.Run(case, listeners=[] if bare else [lst])
     box[0] = run
     err = None
-    info = {}
+    info = {"bare": bare}
+    held = None
     try:
         for b in case.get("batches", []):
             ok = run.iterate(b)
+            if bare and held is not None:
+                # a Solution object obtained EARLIER, looked at before anybody asks for fresh results
+                observe(run, held, "Solution held from an earlier GetResults, after further iterations", moments, vs, case)
             observe(run, run.solver.GetResults(), "after DoGlobalIteration", moments, vs, case)
+            if bare and held is None and run.problem.log:
+                held = run.solver.GetResults()
             if not ok:
                 break
         sol = run.solve()
@@ -134,6 +143,10 @@ def gen(r):
             bs.append(b)
             tot += b
         case["batches"] = bs
+        if r.random() < 0.4:
+            case["bare"] = True
+    if r.random() < 0.15:
+        case["fresh_holder"] = True       # the objective returns a NEW value holder instead of filling in the one it was given
     return case
 
 
@@ -157,6 +170,7 @@ def run(tier, r):
         oc.bump(stats, "runs_with_tie_at_min", 1 if info.get("tie_at_min") else 0)
         oc.bump(stats, "best_changes", info.get("best_changes", 0))
         oc.bump(stats, "refined_runs", 1 if info.get("local") else 0)
+        oc.bump(stats, "runs_without_listener", 1 if info.get("bare") else 0)
         key = oc.case_key(case)
         if key not in keys:
             keys.add(key)
